@@ -1,6 +1,7 @@
 package core
 
 import (
+	"sort"
 	"fmt"
 	"go/ast"
 	"go/token"
@@ -1157,6 +1158,9 @@ func (wm WhoMayCall) Check(r *Run) {
 		}
 		if ok {
 			r.OK(label, r.W.Pos(ref.Ident.Pos()), "caller is in the allowed set")
+		} else if via := wm.onlyThroughAllowed(r, ref.Fn, allowed, pkgsAllowed, 2); via != "" {
+			// an unexported helper that is itself referenced only from the allowed set (an extracted block)
+			r.OK(label, r.W.Pos(ref.Ident.Pos()), "unexported helper used only by "+via)
 		} else {
 			r.Fail(label, r.W.Pos(ref.Ident.Pos()), fmt.Sprintf("%s is used outside the allowed set %v", ShortObj(ref.Obj), wm.Allowed))
 		}
@@ -1164,4 +1168,35 @@ func (wm WhoMayCall) Check(r *Run) {
 	if n < wm.Min {
 		r.Fail(fmt.Sprintf("references to %v", wm.Targets), "-", fmt.Sprintf("expected ≥%d references, found %d", wm.Min, n))
 	}
+}
+
+// onlyThroughAllowed: f is an unexported declared function every reference to
+// which lies in an allowed function (or, up to depth, in another such helper).
+// Returns a description of the allowed users, "" when the condition fails.
+func (wm WhoMayCall) onlyThroughAllowed(r *Run, f *FuncInfo, allowed map[string]bool, pkgsAllowed []string, depth int) string {
+	if f == nil || f.Obj == nil || f.Obj.Exported() || depth == 0 {
+		return ""
+	}
+	refs := r.W.RefsTo(map[types.Object]bool{f.Obj.Origin(): true})
+	if len(refs) == 0 {
+		return ""
+	}
+	var users []string
+	for _, ref := range refs {
+		if ref.Fn == nil {
+			return ""
+		}
+		ok := allowed[ref.Fn.Name]
+		for _, p := range pkgsAllowed {
+			if ref.Fn.Pkg.PkgPath == FullPath(p) {
+				ok = true
+			}
+		}
+		if !ok && wm.onlyThroughAllowed(r, ref.Fn, allowed, pkgsAllowed, depth-1) == "" {
+			return ""
+		}
+		users = append(users, ref.Fn.Name)
+	}
+	sort.Strings(users)
+	return strings.Join(users, ", ")
 }
